@@ -252,6 +252,25 @@ pub fn c01(eng: &mut Engine, rng: &mut Rng, thorough: bool, out: &mut Out) -> Ca
                 }
             }
         }
+        // P honestly answers an UNRESTRICTED attribute by self-attestation (request R0); R asks the same referent with a restriction:
+        // self-attestation is acceptable only where the request puts no restriction
+        if round < 2 || thorough {
+            let mut plan = basic_plan(rng, eng, "a_alice", true);
+            plan.refs.push(RefPlan { referent: "s_nick".into(), kind: Kind::SelfAttested("nickname".into()), cred: None, revealed: true, restrictions: None, non_revoked: None });
+            let r0 = plan.request_json();
+            if let Ok(b) = eng.build_legacy(&plan) {
+                let cid = eng.cast.w.defs[eng.cast.creds[eng.cast.cred("a_alice")].def].cid.0.clone();
+                for (what, q, exp) in [("unrestricted", Value::Null, Some(true)), ("empty-restriction", json!({}), Some(true)), ("restricted-definition", json!({"cred_def_id": cid}), Some(false)),
+                    ("restricted-any", json!({"schema_name": {"$neq": "nothing"}}), Some(false)), ("restricted-negation", json!({"$not": {"issuer_id": "did:web:nobody"}}), Some(false))] {
+                    let mut r = r0.clone();
+                    if !q.is_null() {
+                        r["requested_attributes"]["s_nick"]["restrictions"] = q;
+                    }
+                    let Some(req) = req_from(&r) else { continue };
+                    emit_legacy(eng, out, &mut cases, "c01.legacy", &format!("c01:self-attested-answer:{what}"), "", exp, &b.pres, &b.ghosts, &b.agg, &req, &o, "safety");
+                }
+            }
+        }
         // one referent string used for an attribute and for a predicate (the two sections are separate namespaces)
         if round < 2 || thorough {
             let mut plan = basic_plan(rng, eng, "a_alice", true);
@@ -736,6 +755,37 @@ pub fn c03(eng: &mut Engine, rng: &mut Rng, thorough: bool, out: &mut Out) -> Ca
                 match serde_json::from_value::<anoncreds::data_types::w3c::presentation::W3CPresentation>(j) {
                     Ok(p) => emit_w3c(eng, out, &mut cases, "c03.w3c", &format!("c03:{cls}"), "", Some(false), &p, &b.ghosts, &b.agg, false, &b.req, &o, "safety"),
                     Err(_) => out.count(&format!("c03:{cls}:undeserialisable")),
+                }
+            }
+        }
+        // MORE credentials than proofs: a credential the presentation does not prove is appended (or put in front as a decoy) — the
+        // holder's raw credential with its issuer signature proof and an edited subject, or a copy of a proven one whose proof cannot be
+        // read as a presentation proof. Nothing unproven may ride along in a verified presentation.
+        if let Ok(b) = eng.build_w3c(&basic_plan(rng, eng, "a_alice", true)) {
+            let pj = serde_json::to_value(&b.pres).unwrap();
+            let raw = {
+                let mut j = serde_json::to_value(&eng.cast.creds[eng.cast.cred("a_alice")].w3c).unwrap();
+                j["credentialSubject"] = json!({"name": "Mallory", "title": "Dr"});
+                j
+            };
+            let mut copy_auth = pj["verifiableCredential"][0].clone();
+            copy_auth["proof"]["proofPurpose"] = json!("authentication");
+            copy_auth["credentialSubject"] = json!({"name": "Mallory"});
+            let mut copy_suite = pj["verifiableCredential"][0].clone();
+            copy_suite["proof"]["cryptosuite"] = json!("foreign-suite-2026");
+            copy_suite["credentialSubject"] = json!({"sex": "X"});
+            for (what, extra) in [("raw-credential-edited", raw), ("copy-purpose-authentication", copy_auth), ("copy-foreign-cryptosuite", copy_suite)] {
+                for front in [false, true] {
+                    let mut j = pj.clone();
+                    let arr = j["verifiableCredential"].as_array_mut().unwrap();
+                    if front { arr.insert(0, extra.clone()); } else { arr.push(extra.clone()); }
+                    let Ok(p) = serde_json::from_value::<anoncreds::data_types::w3c::presentation::W3CPresentation>(j) else { out.count(&format!("c03:extra-credential:{what}:undeserialisable")); continue };
+                    // the model is told about the extra credential: it has no sub-proof (ghost of the first one, nothing revealed)
+                    let mut g = b.ghosts.clone();
+                    let mut ge = b.ghosts[0].clone();
+                    ge["intact"] = json!(false);
+                    if front { g.insert(0, ge); } else { g.push(ge); }
+                    emit_w3c(eng, out, &mut cases, "c03.w3c", &format!("c03:extra-credential:{what}:{}", if front { "in-front" } else { "appended" }), "", Some(false), &p, &g, &b.agg, true, &b.req, &o, "safety");
                 }
             }
         }
@@ -1259,6 +1309,21 @@ pub fn c06(eng: &mut Engine, rng: &mut Rng, thorough: bool, out: &mut Out) -> Ca
                     if let Some(b) = &bl {
                         emit_legacy(eng, out, &mut cases, "c06.legacy", &cls, "", Some(expect), &b.pres, &b.ghosts, &b.agg, &req, &o, "safety");
                     }
+                    // the same leaf demanding a value the credential does NOT show: false on the referents of the credential that reveals
+                    // the attribute (its own attribute referent and its own predicate: the revealed value is there to compare)
+                    if expect {
+                        let mut r = r0.clone();
+                        r[section][referent]["restrictions"] = json!({ format!("attr::{}::value", va[0].0): "Somebody Else" });
+                        if let Some(req) = req_from(&r) {
+                            let cls2 = format!("{cls}:wrong-value");
+                            if let Some(b) = &bl {
+                                emit_legacy(eng, out, &mut cases, "c06.legacy", &cls2, "", Some(false), &b.pres, &b.ghosts, &b.agg, &req, &o, "safety");
+                            }
+                            if let Some(b) = &bw {
+                                emit_w3c(eng, out, &mut cases, "c06.w3c", &cls2, "", None, &b.pres, &b.ghosts, &b.agg, true, &req, &o, "safety");
+                            }
+                        }
+                    }
                     if let Some(b) = &bw {
                         // a W3C presentation carries no referent-to-credential mapping: an attribute referent may be answered as
                         // "held, unrevealed" by the sibling that does meet the restriction (judged by the model); a predicate needs
@@ -1328,6 +1393,46 @@ pub fn c06(eng: &mut Engine, rng: &mut Rng, thorough: bool, out: &mut Out) -> Ca
             }
             if done == 0 {
                 out.count("c06:value-restriction-numeric:no-numeric-revealed-in-this-plan");
+            }
+        }
+        // ONE key used for an attribute referent and for a predicate referent (the two sections are separate key spaces), answered
+        // from two different credentials: a restriction on the attribute is judged on the attribute's credential, one on the predicate
+        // on the predicate's
+        if round < 2 || thorough {
+            let (ha, hc) = (eng.cast.cred("a_alice"), eng.cast.cred("c_alice"));
+            let (va, vc) = (eng.cast.creds[ha].values.clone(), eng.cast.creds[hc].values.clone());
+            let (cida, cidc) = (eng.cast.w.defs[eng.cast.creds[ha].def].cid.0.clone(), eng.cast.w.defs[eng.cast.creds[hc].def].cid.0.clone());
+            let (pn, pv) = vc.iter().find(|(_, v)| v.parse::<i32>().is_ok()).map(|(k, v)| (k.clone(), v.parse::<i32>().unwrap())).unwrap();
+            for attr_revealed in [true, false] {
+                let plan = Plan {
+                    creds: vec![CredUse { held: ha, state_list: None, ts_only: None }, CredUse { held: hc, state_list: None, ts_only: None }],
+                    refs: vec![
+                        RefPlan { referent: "k".into(), kind: Kind::Single(va[0].0.clone()), cred: Some(0), revealed: attr_revealed, restrictions: None, non_revoked: None },
+                        RefPlan { referent: "k".into(), kind: Kind::Pred(pn.clone(), "GE", pv - 1), cred: Some(1), revealed: false, restrictions: None, non_revoked: None },
+                    ],
+                    global_nr: None, nonce: format!("{}", 1000 + rng.below(1_000_000_000)), holder: 0 };
+                let r0 = plan.request_json();
+                let bl = eng.build_legacy(&plan).ok();
+                let bw = eng.build_w3c(&plan).ok();
+                for (section, q, expect, what) in [
+                    ("requested_attributes", json!({"cred_def_id": cida}), true, "attribute:own-definition"),
+                    ("requested_attributes", json!({"cred_def_id": cidc}), false, "attribute:definition-of-the-predicate's-credential"),
+                    ("requested_predicates", json!({"cred_def_id": cidc}), true, "predicate:own-definition"),
+                    ("requested_predicates", json!({"cred_def_id": cida}), false, "predicate:definition-of-the-attribute's-credential"),
+                    ("requested_attributes", json!({"$not": {"cred_def_id": cidc}}), true, "attribute:not-the-other-definition"),
+                ] {
+                    let mut r = r0.clone();
+                    r[section]["k"]["restrictions"] = q;
+                    let Some(req) = req_from(&r) else { continue };
+                    let cls = format!("c06:shared-key:{}:{what}", if attr_revealed { "revealed" } else { "unrevealed" });
+                    if let Some(b) = &bl {
+                        emit_legacy(eng, out, &mut cases, "c06.legacy", &cls, "", Some(expect), &b.pres, &b.ghosts, &b.agg, &req, &o, "safety");
+                    }
+                    if let Some(b) = &bw {
+                        // W3C: the two credentials have different schemas, so neither can answer for the other
+                        emit_w3c(eng, out, &mut cases, "c06.w3c", &cls, "", Some(expect), &b.pres, &b.ghosts, &b.agg, true, &req, &o, "safety");
+                    }
+                }
             }
         }
         // a restricted referent cannot be met by self-attestation
